@@ -37,7 +37,7 @@ def run(tier):
                 f.write(sep.join(lines) + (sep if len(cases) % 3 else ""))  # LF or CRLF, with or without a final line end
             cmds.append("filecnt 0 %d %s" % (c, path))
         else:
-            cmds.append("cnt 0 %d %s" % (c, common.hx("\n".join(lines))))
+            cmds.append("%s 0 %d %s" % ("cntold" if len(cases) % 9 == 4 else "cnt", c, common.hx("\n".join(lines))))  # sometimes the deprecated alias
         cmds += ["getoff 0", "dump 0 %d %d" % (start, start + total)]
         if second is not None:
             l2 = [p[0] for p in second]
